@@ -76,6 +76,11 @@ func contractDirs(repo string) []string {
 }
 
 var safeShapeRe = regexp.MustCompile(`#safe:(.*)@\d+$`)
+var ordinalRe = regexp.MustCompile(`@\d+`)
+
+// normName drops call/edge ordinals, so that an obligation that merely moved
+// (another back edge, another call to the same callee) is still recognised.
+func normName(n string) string { return ordinalRe.ReplaceAllString(n, "") }
 
 type replayFile struct {
 	Property    string   `json:"property"`
@@ -163,6 +168,10 @@ func cmdCheck(args []string) {
 	frs, all := runAll(ctx, sel, secs, thorough, *jobs, "")
 	sort.SliceStable(all, func(i, j int) bool { return all[i].Obl.Name < all[j].Obl.Name })
 	expected := loadExpected(filepath.Join(*verif, "expected", *prop+".txt"))
+	expectedNorm := map[string]bool{}
+	for n := range expected {
+		expectedNorm[normName(n)] = true
+	}
 	known := loadKnownFindings(filepath.Join(*verif, "known-findings.txt"))
 	knownByObl := map[string]knownFinding{}
 	for _, k := range known {
@@ -266,7 +275,7 @@ func cmdCheck(args []string) {
 			switch {
 			case ro.Confirmed:
 				isViolation = true
-			case ro.Status == "mismatch":
+			case ro.Status == "mismatch" && !or.Func.VC.nondet:
 				if os.Getenv("GOCV_DEBUG") != "" {
 					fmt.Println(ro.TestSrc)
 					fmt.Println(ro.Output)
@@ -279,7 +288,7 @@ func cmdCheck(args []string) {
 					key := or.Func.FullName + "|" + m[1]
 					shapeOK = shapeNow[key] == shapeExp[key]
 				}
-				if expected[name] && shapeOK && !tainted {
+				if (expected[name] || (or.Obl.Kind != "safe" && expectedNorm[normName(name)])) && shapeOK && !tainted {
 					isViolation = true
 					suffix = " no-failing-input-found"
 				} else {
@@ -310,8 +319,12 @@ func cmdCheck(args []string) {
 	}
 	// expected obligations that vanished
 	missing := []string{}
+	seenNorm := map[string]bool{}
+	for n := range seenNames {
+		seenNorm[normName(n)] = true
+	}
 	for n := range expected {
-		if !seenNames[n] {
+		if !seenNames[n] && !seenNorm[normName(n)] {
 			missing = append(missing, n)
 		}
 	}
